@@ -11,6 +11,7 @@ META = {
     "level": "Decides: (R1) request_enable, request_disable, rollback, commit and lock invalidate cached USE-dependent attributes after every mutation of the USE set; (R2) the cache generation only ever grows, so a generation under which something was cached is never reused; (R3) a refused request (Unchangable raised half-way, or a dependency that cannot be forced) rolls the USE set back to the point taken before the first change; (R4) an attribute is recomputed exactly when its cached generation differs from the current one, from the raw attribute and the live USE set; (R5) the ConfiguredTree wrappers evaluate dependency-style attributes under the full enabled USE set (not a subset of it). Does NOT decide attribute equality for concrete request histories.",
     "note": "snakeoil LimitedChangeSet (add/remove/rollback/commit/changes_count) is trusted base",
 }
+META["technique"] += "; " + 'generic pack G on the anchored files (optional-flag shift, closures outliving a loop iteration, single-pass iterables consumed twice, %-templates built from data, in-place writes to class-level / memoised objects, generators mutating what they yielded, memo keys that are projections)'
 MOD = "pkgcore.package.conditionals"
 PW = "make_wrapper.<locals>.PackageWrapper"
 CONF = "self._configurable"
